@@ -10,6 +10,7 @@ LABELS = ["C19_PeriodGrammar", "C19_PeriodValue", "C19_NoCrash", "C19_LoadsOrRej
 MC_CFG = """SPECIFICATION MCSpec
 CONSTANTS
   Enforce = %s
+  Deviations = %s
   Alphabet = {"0","1","9","s","m","w","x"}
   MaxLen = %d
 INVARIANTS NoBad Emit
@@ -18,6 +19,7 @@ CHECK_DEADLOCK FALSE
 TRACE_CFG = """SPECIFICATION TSpec
 CONSTANTS
   Enforce = %s
+  Deviations = {}
   Alphabet = {}
   MaxLen = 0
 POSTCONDITION Accepted
@@ -35,12 +37,13 @@ def period_points(strings):
         if not r.get("ok"):
             raise ToolError("period probe failed: %s" % str(r)[:300])
         for s, res in zip(chunk, r["results"]):
-            nums = __import__("re").findall(r"[0-9]+", s)
-            big = any(len(x.lstrip("0")) > 4 for x in nums) or len(nums) > 8
-            ev = {"e": "Period", "chars": list(s), "ok": bool(res.get("ok")), "panic": bool(res.get("panic")), "big": big, "min": 0, "sec": 0}
-            if res.get("ok") and not big:
+            # the answer in the specification's number format: base-1000 limbs, least significant first
+            ev = {"e": "Period", "chars": list(s), "ok": bool(res.get("ok")), "panic": bool(res.get("panic")), "val": []}
+            if res.get("ok"):
                 tot = int(res["secs"])
-                ev["min"], ev["sec"] = tot // 60, tot % 60
+                while tot:
+                    ev["val"].append(tot % 1000)
+                    tot //= 1000
             out.append(ev)
     return out
 
@@ -302,9 +305,14 @@ def classify(run):
 def run(ctx):
     rng = random.Random(ctx.seed)
     maxlen = 5 if ctx.tier == "thorough" else 4
-    r = tlc.model_check("Period", MC_CFG % (tlc.tla_set(LABELS), maxlen), "C19_mc", workers=8, timeout=1500, required_actions=["MCNext"])
+    r = tlc.model_check("Period", MC_CFG % (tlc.tla_set(LABELS), "{}", maxlen), "C19_mc", workers=8, timeout=1500, required_actions=["MCNext"])
     if r["violated"]:
         raise ToolError("Period: model inconsistent (%s)" % r["out_path"])
+    # strings long enough to overflow 64-bit seconds ("9"*14 + "w" and longer) over a small alphabet: the clamping parser must be caught
+    rd = tlc.model_check("Period", MC_CFG.replace('{"0","1","9","s","m","w","x"}', '{"9","w"}').replace("INVARIANTS NoBad Emit", "INVARIANTS NoBad")
+                         % (tlc.tla_set(LABELS), '{"SaturatingPeriod"}', 15), "C19_dev", workers=8, timeout=900)
+    if not rd["violated"]:
+        raise ToolError("Period model sanity: a parser that clamps an overflowing period is not caught")
     strings = ["".join(cs) for cs in tlc.replays(r["raw"])]
     rnd = []
     alpha = "0123456789smhdwx "
@@ -392,7 +400,7 @@ def run(ctx):
            "period_strings_enumerated_by_tlc": len(strings), "daemon_starts_judged": len(results), "loader_points_judged": len(lpoints), "outcomes": outcomes, "hook_group_graphs": gcov,
            "exhaustive": False,
            "rule": "TLC enumerates every string of length <= %d over {0,1,9,s,m,w,x}; plus boundary numerals around 2^64/multiplier and random strings; each is parsed by "
-                   "the real parse_duration and judged by Period.tla (grammar, value as minutes+seconds, no panic). Structural hazards (group cycles 1..3 through the named group, lassos that only lead to a cycle, via certificate and account lists, diamonds; include "
+                   "the real parse_duration and judged by Period.tla (grammar, exact value in base-1000 limbs whatever the length of the numerals, no panic). Structural hazards (group cycles 1..3 through the named group, lassos that only lead to a cycle, via certificate and account lists, diamonds; include "
                    "cycles 1..3, rate limits with number 0 / huge periods / periods above the uptime, overflowing periods) and field-by-field mutations of a valid "
                    "configuration are given to the real daemon with a reachable CA: the outcome (first attempt done | error exit with message | crash | hang) is "
                    "judged by the specification. Every single field mutation and the pairs (delete one field, mutate another field of the same table; quick: all pairs ending in a deletion / empty list / empty string, half of the others) "
